@@ -65,6 +65,19 @@ def f_grade(year, gender, age, event, perf):
     return call(athlib.wma_age_grade, gender, age, event, perf, year=year)
 
 
+def f_grade_verbose(year, gender, age, event, perf, positional=False):
+    """The same grade asked for with the documented `verbose` option on (it prints the working; the answer is the answer)."""
+    import contextlib, io
+    with contextlib.redirect_stdout(io.StringIO()):
+        if year == 'athlon':
+            if positional:
+                return call(athlib.wma_athlon_age_grade, gender, age, event, perf, True)
+            return call(athlib.wma_athlon_age_grade, gender, age, event, perf, verbose=True)
+        if positional:
+            return call(athlib.wma_age_grade, gender, age, event, perf, True, year)
+        return call(athlib.wma_age_grade, gender, age, event, perf, verbose=True, year=year)
+
+
 def _case_ok(sp, event):
     if sp == event or not codes.PAT_EVENT_CODE.match(sp):
         return False
@@ -170,6 +183,11 @@ def examine(case):
                 out.append(V('grade-defined', ['grade-raises', bad[1], 'athlon'], dict(case), bad[:3]))
             return out
         vals = [r[1] for r in rs]
+        for m, r in zip(marks, rs):
+            rv = f_grade_verbose(year, g, age, event, m, positional=(m == marks[1]))
+            if rv[:2] != r[:2]:
+                out.append(V('grade-equals-standard-ratio', ['grade-value', 'verbose-option', 'athlon'], dict(case, perf=m), rv[:3], r[1]))
+                return out
         ok = all(a > b for a, b in zip(vals, vals[1:])) if timed else all(a < b for a, b in zip(vals, vals[1:]))
         if not ok:
             out.append(V('better-grades-higher', ['grade-monotone', 'athlon', 'timed' if timed else 'field'],
@@ -205,6 +223,13 @@ def examine(case):
                 out.append(V('better-grades-higher', ['grade-monotone'], dict(base, perf=p), [prev, gr[1]]))
                 break
             prev = gr[1]
+            # the options and carriers a caller may use for the same question: `verbose` on (keyword / positional), the
+            # performance as text
+            for label, rv in (('verbose-option', f_grade_verbose(year, g, age, event, p, positional=(p == perfs[0]))),
+                              ('performance-as-text', f_grade(year, g, age, event, '%.2f' % p))):
+                if rv[:2] != gr[:2]:
+                    out.append(V('grade-equals-standard-ratio', ['grade-value', label], dict(base, perf=p), rv[:3], gr[1]))
+                    return out
         if year != 'athlon':
             # the table year in its other carriers (text, left out): whichever table such a carrier selects, the three entry
             # points select the SAME one - the grade still equals best / factor / performance taken with that same argument
